@@ -264,8 +264,12 @@ impl MCOptimiser {
             // Taking shinking the cell as an example, 50% of steps will  increase the cell, so
             // we want 50% of the steps which can improve the performance to be accepted.
             // There is a limit to the usefulness though and 1e-4 has been good.
+            // The step size is only ever reduced from the configured maximum.
             if step_ratio > 1e-4 {
-                step_ratio *= self.inner_steps as f64 / (loop_rejections as f64 + 1.);
+                step_ratio = f64::min(
+                    step_ratio * (self.inner_steps as f64 / (loop_rejections as f64 + 1.)),
+                    1.,
+                );
             }
         }
         debug!(
